@@ -535,7 +535,11 @@ func run(a *hlib.Args, e *hlib.Emitter) error {
 		}
 		file := genSmallFile(r, class)
 		cfgName := []string{"v1", "v2"}[i%2]
-		c, err := runCompileCase(a.Scratch, class, cfgName, file, pickSettings(r, cfgOf(cfgName), perCase), true, ncpu)
+		sets := pickSettings(r, cfgOf(cfgName), perCase)
+		if !thorough && i%2 == 1 && class != "reject" {
+			sets = sets[1:] // a Builder costs about 1 GB of zeroed memory: every other file in the quick tier
+		}
+		c, err := runCompileCase(a.Scratch, class, cfgName, file, sets, true, ncpu)
 		if err != nil {
 			return err
 		}
